@@ -39,6 +39,7 @@ pub struct Config {
 pub struct KnownPeers(pub HashMap<PeerId, PeerInfo>);
 impl KnownPeers {
     pub fn inner(&self) -> (r: &HashMap<PeerId, PeerInfo>) ensures *r == self.0 { &self.0 }
+    pub fn inner_mut(&mut self) -> (r: &mut HashMap<PeerId, PeerInfo>) ensures *r == old(self).0, final(self).0 == *final(r) { &mut self.0 }
 }
 // an inbound / outbound QUIC+TLS handshake in progress: resolves to an authenticated connection or fails
 pub struct Connecting { pub outcome: Ghost<Result<Connection>>, pub expected: Ghost<Option<PeerId>>, pub to: Ghost<u64> }
@@ -229,6 +230,16 @@ def build(C):
     t += C.fn(CM, 'impl KnownPeers :: fn get', 'KnownPeers::get', ['C10'], ret='r', body_prefix='\n        broadcast use axiom_peer_id_key;\n', spec='''
     ensures
         r == (if self.0@.contains_key(*peer_id) { Some(self.0@[*peer_id]) } else { None::<PeerInfo> }), // @OBL KnownPeers::get::is_table_lookup [C10] the affinity used for admission is the one the application registered for exactly that peer (or none)
+''')
+    t += C.fn(CM, 'impl KnownPeers :: fn insert', 'KnownPeers::insert', ['C10', 'C13'], ret='r', sig_rewrites=[('&self', '&mut self')], body_prefix='\n        broadcast use axiom_peer_id_key;\n', spec='''
+    ensures
+        final(self).0@ == old(self).0@.insert(peer_info.peer_id, peer_info), // @OBL KnownPeers::insert::registers_exactly_that_entry [C10,C13] registering (or updating) a known peer stores exactly the given affinity and addresses under exactly that peer's id: every update takes effect, whatever it contains, and no other entry changes
+        r == (if old(self).0@.contains_key(peer_info.peer_id) { Some(old(self).0@[peer_info.peer_id]) } else { None::<PeerInfo> }), // @OBL KnownPeers::insert::returns_the_previous_entry [C10] the previous entry, if any, is returned
+''')
+    t += C.fn(CM, 'impl KnownPeers :: fn remove', 'KnownPeers::remove', ['C10', 'C13'], ret='r', sig_rewrites=[('&self', '&mut self')], body_prefix='\n        broadcast use axiom_peer_id_key;\n', spec='''
+    ensures
+        final(self).0@ == old(self).0@.remove(*peer_id), // @OBL KnownPeers::remove::forgets_exactly_that_entry [C10,C13] removing a known peer removes exactly that peer's entry (it is then treated like any unknown peer) and no other
+        r == (if old(self).0@.contains_key(*peer_id) { Some(old(self).0@[*peer_id]) } else { None::<PeerInfo> }), // @OBL KnownPeers::remove::returns_the_entry [C10] the removed entry, if any, is returned
 ''')
     t += '}\n'
     # ---- admission (C10): the `async { .. }` block of handle_incoming_task ----------------------------------
